@@ -65,7 +65,8 @@ class C14(object):
                 "use_key": rng.random() < 0.75, "varargs": rng.random() < 0.3, "key_raises_on": rng.choice([None, None, None, 0, 1]),
                 "competitors": rng.randint(0, 3), "prio": gen.gen_prio(rng, 3),
                 "k_fail": rng.randint(0, 6), "max_tries": rng.randint(1, 6), "listed": rng.random() < 0.75,
-                "multi_exc": rng.random() < 0.3, "concurrent": rng.choice([1, 1, 2, 3])}
+                "multi_exc": rng.random() < 0.3, "concurrent": rng.choice([1, 1, 2, 3]),
+                "key_kind": rng.choice(["asynq", "asynq", "made", "method", "proxy"])}
         return case
 
     def sample(self, case, r):
@@ -111,13 +112,32 @@ class C14(object):
             return kv
 
         @A.asynq()
-        def akey(x):
+        def akey_plain(x):
             if blocking:
                 nitem[0] += 1
                 it = real.SimItem(B.current[0], "h.i%d" % nitem[0], "k", B)
                 my_items.append(it.tok)
                 yield it
             return sync_key(x)
+        kk = case.get("key_kind", "asynq")
+        if kk == "made":
+            # an asynchronous key wrapped by the public make_async_decorator(): has .asynq, is not an AsyncDecorator
+            from asynq.decorators import make_async_decorator
+
+            @A.asynq(pure=True)
+            def _wrap(*args, **kwargs):
+                return (yield akey_plain.asynq(*args, **kwargs))
+            akey = make_async_decorator(akey_plain, _wrap, "keywrap")
+        elif kk == "method":
+            class _K(object):
+                @A.asynq()
+                def key(self, x):
+                    return (yield akey_plain.asynq(x))
+            akey = _K().key
+        elif kk == "proxy":
+            akey = A.async_proxy()(lambda x: akey_plain.asynq(x))
+        else:
+            akey = akey_plain
 
         def container():
             c = case.get("container", "list")
